@@ -62,10 +62,14 @@ impl<'a> SessionData<'a> {
             ReceivedPacket::PubRec(rec) => {
                 let queue_release = match self.outbound.ack_packet(rec.packet_id) {
                     true => {
-                        runtime.send_quota = runtime
-                            .send_quota
-                            .saturating_add(1)
-                            .min(runtime.max_send_quota);
+                        // A QoS 2 publish occupies the broker's receive window until PUBCOMP;
+                        // only a failing PUBREC ends the exchange (and frees the slot) here.
+                        if rec.reason.code().failed() {
+                            runtime.send_quota = runtime
+                                .send_quota
+                                .saturating_add(1)
+                                .min(runtime.max_send_quota);
+                        }
                         debug!(
                             "Processed PUBREC packet_id={=u16} send_quota={=u16}",
                             rec.packet_id, runtime.send_quota
@@ -104,7 +108,14 @@ impl<'a> SessionData<'a> {
                     );
                     return Ok(false);
                 }
-                debug!("Processed PUBCOMP packet_id={=u16}", comp.packet_id);
+                runtime.send_quota = runtime
+                    .send_quota
+                    .saturating_add(1)
+                    .min(runtime.max_send_quota);
+                debug!(
+                    "Processed PUBCOMP packet_id={=u16} send_quota={=u16}",
+                    comp.packet_id, runtime.send_quota
+                );
                 comp.reason.code().as_result()?;
             }
             ReceivedPacket::PubRel(rel) => {
